@@ -1408,8 +1408,15 @@ def _mp_visit_worker(ready_queue, done_event, callback):
         try:
             args = ready_queue.get(True, timeout=1)
         except Empty:
-            if done_event.is_set():
+            if not done_event.is_set():
+                continue
+
+            # The done flag is only raised after every item has been flushed
+            # into the queue, but an item may have arrived between our timeout
+            # and our look at the flag. One more non-blocking look settles it.
+            try:
+                args = ready_queue.get(False)
+            except Empty:
                 break
-            continue
 
         callback(*args)
